@@ -1,4 +1,54 @@
 #![feature(generic_const_exprs)]
 #![allow(incomplete_features)]
-use weechess_engine::searcher::verif::VerifTable;
-fn main(){ let t=VerifTable::new(1,1); println!("{}", t.max_entries()); }
+
+mod bridge;
+mod explore;
+mod families;
+mod lockstep;
+mod report;
+
+use report::Ctx;
+
+fn usage() -> ! {
+    eprintln!("usage: posmc check <ID> [--tier quick|thorough] [--replay FILE]");
+    std::process::exit(2);
+}
+
+fn main() {
+    let args: Vec<String> = std::env::args().collect();
+    if args.len() < 3 || args[1] != "check" {
+        usage();
+    }
+    let id = args[2].clone();
+    let mut tier = std::env::var("VERIF_TIER").unwrap_or_else(|_| "quick".into());
+    let mut replay: Option<String> = None;
+    let mut i = 3;
+    while i < args.len() {
+        match args[i].as_str() {
+            "--tier" => {
+                tier = args[i + 1].clone();
+                i += 2;
+            }
+            "--replay" => {
+                replay = Some(args[i + 1].clone());
+                i += 2;
+            }
+            _ => usage(),
+        }
+    }
+    if tier != "quick" && tier != "thorough" {
+        usage();
+    }
+    let seed: u64 = std::env::var("VERIF_SEED").ok().and_then(|s| s.parse().ok()).unwrap_or(0);
+    let ctx = Ctx::new(&id, &tier, seed);
+    let _ = replay;
+    let code = match id.as_str() {
+        "C01" => lockstep::run(&ctx, true, false),
+        "C02" => lockstep::run(&ctx, false, true),
+        _ => {
+            eprintln!("unknown property {}", id);
+            2
+        }
+    };
+    std::process::exit(code);
+}
